@@ -252,7 +252,25 @@ and gen_group r m e t size =
   let e' = ref e in
   let i = ref 0 in
   while !i < n do
-    (match Rng.int r 13 with
+    (match Rng.int r 14 with
+     | 13 ->
+       (* an IMPLICIT function (never applied: implicit function types are not eliminated by application) as a
+          definition, annotated with its implicit function type, possibly handed to a dependent consumer through a
+          type family: the elaborated term must keep the implicit binder, and the binder's flag is compared by unify *)
+       let pf = fresh_name e "imp" and a = fresh_name e "ty" and x = fresh_name e "x" in
+       let ity = SPi (a, true, SType, SArrow (SVar a, SVar a)) in
+       let body = SLam (a, true, Some SType, SLam (x, false, Some (SVar a), SVar x)) in
+       let ann = if Rng.int r 10 < m.annot_num then Some ity else None in
+       defs := (pf, ann, body) :: !defs;
+       if Rng.bool r then begin
+         (* w = (q : ({a : type} -> a -> a) -> type) => (mk : (h : {a : type} -> a -> a) -> q h) => (r : q BODY = mk BODY; r):
+            the family q is a parameter, so `q BODY` stays neutral and its argument is compared structurally *)
+         let q = fresh_name e "fam" and mk = fresh_name e "mk" and w = fresh_name e "dq" and h = fresh_name e "h" and rr = fresh_name e "r" in
+         let qty = SArrow (ity, SType) and mkty = SPi (h, false, ity, SApp (SVar q, SVar h)) in
+         let inner = SLet ([ (rr, Some (SApp (SVar q, body)), SApp (SVar mk, body)) ], SVar rr) in
+         let wann = if Rng.int r 10 < m.annot_num then Some (SPi (q, false, qty, SPi (mk, false, mkty, SApp (SVar q, body)))) else None in
+         defs := (w, wann, SLam (q, false, Some qty, SLam (mk, false, Some mkty, inner))) :: !defs
+       end
      | 12 ->
        (* a recursive type-level function (or a mutually recursive pair), followed in the SAME group by a value
           whose annotation needs it unfolded several levels deep: the function is not the last member of its
@@ -455,6 +473,40 @@ let confusable (r : Rng.t) : string =
   | 0 -> Printf.sprintf "x : %s = %s; y : %s = x; %s" a1 v1 a2 (use2 "y")
   | 1 -> Printf.sprintf "x : %s = %s; f = (y : %s) => %s; f x" a1 v1 a2 (use2 "y")
   | _ -> Printf.sprintf "x : %s = %s; ((y : %s) => %s) x" a1 v1 a2 (use2 "y")
+
+(* Confusable indices: a type family over int (or bool) applied to two open arithmetic / comparison expressions that
+   look alike - the same operator over different variables, exchanged operands, a constant off by one - and a value
+   passed from the one instance to the other. When the two indices are not definitionally equal the cast must be
+   rejected; instantiated, accepting it hands an integer to a boolean position (or the reverse). *)
+let confusable_index (r : Rng.t) : string =
+  let ops = [| "+"; "*"; "-"; "/" |] in
+  let o = Rng.pick_arr r ops in
+  let pairs = [|
+    (Printf.sprintf "x %s x" o, Printf.sprintf "y %s y" o, false);
+    (Printf.sprintf "x %s y" o, Printf.sprintf "y %s x" o, false);
+    (Printf.sprintf "x %s 1" o, Printf.sprintf "x %s 2" o, false);
+    (Printf.sprintf "x %s y" o, Printf.sprintf "x %s y" o, true);
+    (Printf.sprintf "(x %s y) %s 1" o o, Printf.sprintf "(x %s y) %s 1" o o, true);
+    (Printf.sprintf "x %s (1 + 1)" o, Printf.sprintf "x %s 2" o, true);
+    ("-x", "-y", false); ("-x", "-x", true);
+    (Printf.sprintf "x %s x" o, Printf.sprintf "x %s x" o, true) |] in
+  let (e1, e2, _same) = Rng.pick_arr r pairs in
+  (* a comparison as index of a family over bool, one time in four *)
+  let (fam_dom, e1, e2) =
+    if Rng.chance r 1 4 then
+      let c = Rng.pick r [ "<"; "<="; "=="; ">"; ">=" ] in
+      ("bool", Printf.sprintf "(x %s y)" c, (if Rng.bool r then Printf.sprintf "(y %s x)" c else Printf.sprintf "(x %s y)" c))
+    else ("int", "(" ^ e1 ^ ")", "(" ^ e2 ^ ")") in
+  let cast = Printf.sprintf "cast : ((p : %s -> type) -> (x : int) -> (y : int) -> p %s -> p %s) = (p : %s -> type) => (x : int) => (y : int) => (v : p %s) => v"
+      fam_dom e1 e2 fam_dom e1 in
+  match Rng.int r 3 with
+  | 0 -> cast ^ "; cast"
+  | 1 ->
+    (* instantiated so that the two indices select different types at the chosen arguments *)
+    if fam_dom = "int" then
+      Printf.sprintf "%s; cast ((n : int) => if n == 0 then int else bool) 0 1 5" cast
+    else Printf.sprintf "%s; cast ((b : bool) => if b then int else bool) 1 2 5" cast
+  | _ -> Printf.sprintf "%s; r = cast ((n : %s) => int) 3 4 5; r + 1" cast fam_dom
 
 let hex_of_string (s : string) : string =
   let b = Buffer.create (2 * String.length s + 2) in
